@@ -1,7 +1,940 @@
 (* LruLitFacts.v — C08 for lru_cache and mru_cache: the literal machine (LruLit.v) never
    reaches UB and computes exactly what the mid-level model (ListCache.v) computes. *)
-Require Import Capp.Base Capp.Spec Capp.ListCache Capp.ListCacheFacts Capp.RrLit Capp.LruLit.
+Require Import Capp.Base Capp.Spec Capp.Rr Capp.ListCache Capp.ListCacheFacts Capp.RrLit Capp.LruLit.
 From Coq Require Import Strings.String.
+From Coq Require Import Permutation.
+
+(* ------------------------------------------------------------------------------------ *)
+(* the std::list model on a list  used ++ free  whose partition iterator is begin(free)  *)
+(* ------------------------------------------------------------------------------------ *)
+Section StlFacts.
+  Local Open Scope list_scope.
+  Local Open Scope nat_scope.
+
+  Lemma iter_eqb_true a b : iter_eqb a b = true -> a = b.
+  Proof.
+    destruct a as [x|], b as [y|]; simpl; intros E; try discriminate; auto.
+    apply Nat.eqb_eq in E. subst; auto.
+  Qed.
+  Lemma iter_eqb_refl a : iter_eqb a a = true.
+  Proof. destruct a; simpl; auto. apply Nat.eqb_refl. Qed.
+  Lemma iter_eqb_neq a b : a <> b -> iter_eqb a b = false.
+  Proof.
+    intros N. destruct (iter_eqb a b) eqn:E; auto. apply iter_eqb_true in E. contradiction.
+  Qed.
+
+  Lemma mem_nat_true n l : mem_nat n l = true <-> In n l.
+  Proof.
+    induction l as [|x r IH]; simpl.
+    - split; [discriminate|tauto].
+    - rewrite orb_true_iff, IH, Nat.eqb_eq. split; intros [E|I]; auto.
+  Qed.
+  Lemma mem_nat_in n l : In n l -> mem_nat n l = true.
+  Proof. apply mem_nat_true. Qed.
+
+  (* no node of [a] is the first node of [free] *)
+  Definition sep (a free : list nat) : Prop := forall x, In x a -> l_begin free <> It x.
+
+  Lemma nodup_sep a free : NoDup (a ++ free) -> sep a free.
+  Proof.
+    intros N x I E. destruct free as [|m f]; simpl in E; [discriminate|].
+    inversion E; subst m. apply NoDup_remove_2 in N. apply N. apply in_or_app; left; auto.
+  Qed.
+
+  Lemma sep_tail x a free : sep (x :: a) free -> sep a free.
+  Proof. intros S y I. apply S. right; auto. Qed.
+
+  Lemma used_part_app used free : sep used free -> used_part (used ++ free) (l_begin free) = used.
+  Proof.
+    induction used as [|x u IH]; intros S; simpl.
+    - destruct free as [|m f]; simpl; auto. rewrite Nat.eqb_refl. auto.
+    - rewrite iter_eqb_neq by (apply S; left; auto). f_equal. apply IH. eapply sep_tail; eauto.
+  Qed.
+
+  Lemma valid_begin_app used free : valid_it (used ++ free) (l_begin free) = true.
+  Proof.
+    destruct free as [|m f]; simpl; auto. apply mem_nat_in. apply in_or_app. right; left; auto.
+  Qed.
+
+  Lemma valid_decomp l e : valid_it l e = true ->
+    exists free, l = used_part l e ++ free /\ e = l_begin free.
+  Proof.
+    induction l as [|x r IH]; intros Hv; simpl.
+    - destruct e as [n|]; simpl in Hv; [discriminate|]. exists []. auto.
+    - destruct (iter_eqb e (It x)) eqn:E.
+      + apply iter_eqb_true in E. subst e. exists (x :: r). auto.
+      + destruct IH as (free & E1 & E2).
+        { destruct e as [n|]; simpl in *; auto. rewrite E in Hv. simpl in Hv. exact Hv. }
+        exists free. split; auto. simpl. f_equal. exact E1.
+  Qed.
+
+  Lemma before_app u n free : sep (u ++ [n]) free ->
+    before (l_begin free) (u ++ n :: free) = Some n.
+  Proof.
+    induction u as [|x u IH]; intros S.
+    - simpl. destruct free as [|m f]; simpl; auto. rewrite Nat.eqb_refl; auto.
+    - assert (S' : sep (u ++ [n]) free) by (eapply sep_tail; exact S).
+      specialize (IH S').
+      change ((x :: u) ++ n :: free) with (x :: (u ++ n :: free)).
+      destruct u as [|y u'].
+      + simpl app in *. simpl before at 1.
+        rewrite iter_eqb_neq by (apply S; simpl; auto). exact IH.
+      + simpl app in *. simpl before at 1.
+        rewrite iter_eqb_neq by (apply S; simpl; auto). exact IH.
+  Qed.
+
+  Lemma l_begin_in a b : a <> [] -> exists h, l_begin (a ++ b) = It h /\ In h a.
+  Proof. destruct a as [|h a]; [congruence|]. intros _. exists h. simpl; auto. Qed.
+
+  Lemma l_prev_app u n free : NoDup (u ++ n :: free) ->
+    l_prev (u ++ n :: free) (l_begin free) = Ok (It n).
+  Proof.
+    intros N.
+    assert (E : u ++ n :: free = (u ++ [n]) ++ free) by (rewrite <- app_assoc; reflexivity).
+    assert (S : sep (u ++ [n]) free) by (apply nodup_sep; rewrite <- E; exact N).
+    unfold l_prev. rewrite E at 1. rewrite valid_begin_app.
+    destruct (l_begin_in (u ++ [n]) free) as (h & Eh & Ih). { destruct u; discriminate. }
+    rewrite E at 1. rewrite Eh. rewrite iter_eqb_neq by (apply S; exact Ih).
+    rewrite before_app by exact S. reflexivity.
+  Qed.
+
+  Lemma l_back_app u n : l_back (u ++ [n]) = Ok n.
+  Proof.
+    unfold l_back. destruct (u ++ [n]) as [|y r] eqn:E; [destruct u; discriminate|].
+    rewrite <- E, last_last. reflexivity.
+  Qed.
+
+  Lemma after_app u n free : ~ In n u -> after n (u ++ n :: free) = l_begin free.
+  Proof.
+    induction u as [|x u IH]; intros NI; simpl.
+    - rewrite Nat.eqb_refl. reflexivity.
+    - destruct (Nat.eqb_spec n x) as [E|Nx]; [exfalso; apply NI; left; auto|].
+      apply IH. intros I. apply NI. right; auto.
+  Qed.
+
+  (* remove_nat *)
+  Lemma remove_nat_app_in n a b : In n a -> remove_nat n (a ++ b) = remove_nat n a ++ b.
+  Proof.
+    induction a as [|x a IH]; simpl; intros I; [tauto|].
+    destruct (Nat.eqb_spec n x) as [E|Nx]; auto.
+    destruct I as [E|I]; [congruence|]. simpl. f_equal. auto.
+  Qed.
+  Lemma remove_nat_app_notin n a b : ~ In n a -> remove_nat n (a ++ b) = a ++ remove_nat n b.
+  Proof.
+    induction a as [|x a IH]; simpl; intros NI; auto.
+    destruct (Nat.eqb_spec n x) as [E|Nx]; [exfalso; apply NI; auto|].
+    f_equal. apply IH. intros I; apply NI; auto.
+  Qed.
+  Lemma remove_nat_notin n a : ~ In n a -> remove_nat n a = a.
+  Proof.
+    intros NI. rewrite <- (app_nil_r a) at 1. rewrite remove_nat_app_notin by auto.
+    simpl. apply app_nil_r.
+  Qed.
+  Lemma remove_nat_last n u : ~ In n u -> remove_nat n (u ++ [n]) = u.
+  Proof.
+    intros NI. rewrite remove_nat_app_notin by auto. simpl. rewrite Nat.eqb_refl. apply app_nil_r.
+  Qed.
+  Lemma perm_remove_nat n l : In n l -> Permutation (n :: remove_nat n l) l.
+  Proof.
+    induction l as [|x r IH]; simpl; intros I; [tauto|].
+    destruct (Nat.eqb_spec n x) as [E|Nx]; [subst; reflexivity|].
+    destruct I as [E|I]; [congruence|].
+    eapply perm_trans; [apply perm_swap|]. apply perm_skip. auto.
+  Qed.
+  Lemma in_remove_nat n l x : NoDup l -> (In x (remove_nat n l) <-> In x l /\ x <> n).
+  Proof.
+    induction l as [|y r IH]; simpl; intros N; [tauto|].
+    inversion N as [|y' r' Hni Hnd]; subst.
+    destruct (Nat.eqb_spec n y) as [E|Ny].
+    - subst y. split.
+      + intros I. split; auto. intros E; subst; auto.
+      + intros [[E|I] Nx]; [congruence|auto].
+    - simpl. rewrite IH by auto. split.
+      + intros [E|[I Nx]]; [subst; split; auto|auto].
+      + intros [[E|I] Nx]; auto.
+  Qed.
+  Lemma in_remove_nat_weak n l x : In x (remove_nat n l) -> In x l.
+  Proof.
+    induction l as [|y r IH]; simpl; auto.
+    destruct (Nat.eqb_spec n y) as [E|Ny]; simpl; auto. intros [E|I]; auto.
+  Qed.
+  Lemma remove_nat_rev n l : NoDup l -> remove_nat n (rev l) = rev (remove_nat n l).
+  Proof.
+    induction l as [|x r IH]; simpl; intros N; auto.
+    inversion N as [|x' r' Hni Hnd]; subst.
+    destruct (Nat.eqb_spec n x) as [E|Nx].
+    - subst x. apply remove_nat_last. rewrite <- in_rev. auto.
+    - simpl. rewrite <- IH by auto.
+      destruct (in_dec Nat.eq_dec n (rev r)) as [I|NI].
+      + apply remove_nat_app_in; auto.
+      + rewrite remove_nat_app_notin by auto. simpl.
+        destruct (Nat.eqb_spec n x) as [E|_]; [congruence|].
+        rewrite remove_nat_notin by auto. reflexivity.
+  Qed.
+
+  Lemma insert_before_app a n free : sep a free ->
+    insert_before (l_begin free) n (a ++ free) = a ++ n :: free.
+  Proof.
+    induction a as [|x a IH]; intros S; simpl.
+    - destruct free as [|m f]; simpl; auto. rewrite Nat.eqb_refl; auto.
+    - rewrite iter_eqb_neq by (apply S; left; auto). f_equal. apply IH. eapply sep_tail; eauto.
+  Qed.
+
+  (* splice(partition point, list, n) for a used node n *)
+  Lemma l_splice_end used free n : NoDup (used ++ free) -> In n used ->
+    l_splice (used ++ free) (l_begin free) (It n) = Ok (remove_nat n used ++ n :: free).
+  Proof.
+    intros N I. pose proof (nodup_sep _ _ N) as S.
+    unfold l_splice. rewrite mem_nat_in by (apply in_or_app; auto).
+    rewrite valid_begin_app. rewrite iter_eqb_neq by (apply S; auto).
+    rewrite remove_nat_app_in by auto. rewrite insert_before_app; auto.
+    intros x Ix. apply S. eapply in_remove_nat_weak; eauto.
+  Qed.
+
+  (* splice(begin(), list, n) *)
+  Lemma l_splice_begin l n : In n l -> l_splice l (l_begin l) (It n) = Ok (n :: remove_nat n l).
+  Proof.
+    intros I. unfold l_splice. rewrite mem_nat_in by auto.
+    destruct l as [|x r]; [destruct I|]. simpl l_begin.
+    assert (Hv : valid_it (x :: r) (It x) = true) by (simpl; rewrite Nat.eqb_refl; auto).
+    rewrite Hv. simpl iter_eqb. simpl remove_nat.
+    destruct (Nat.eqb_spec x n) as [E|Nx].
+    - subst x. rewrite Nat.eqb_refl. reflexivity.
+    - destruct (Nat.eqb_spec n x) as [E|_]; [congruence|].
+      simpl. rewrite Nat.eqb_refl. reflexivity.
+  Qed.
+End StlFacts.
+
+(* ------------------------------------------------------------------------------------ *)
+(* association lists, vectors, reading a node sequence through the cells                 *)
+(* ------------------------------------------------------------------------------------ *)
+Section ReadFacts.
+  Context {K : Type} `{EqDec K} {A : Type}.
+  Local Open Scope list_scope.
+  Local Open Scope nat_scope.
+
+  Lemma remk_notin_id k (l : list (K * A)) : ~ In k (keys l) -> remk k l = l.
+  Proof.
+    induction l as [|[k' a] l IH]; simpl; intros NI; auto.
+    destruct (Base.eqb_spec k k') as [E|N]; [exfalso; apply NI; auto|].
+    f_equal. apply IH. intros I; apply NI; auto.
+  Qed.
+
+  Lemma length_remk_S k (l : list (K * A)) i : NoDup (keys l) -> assoc k l = Some i ->
+    S (List.length (remk k l)) = List.length l.
+  Proof.
+    induction l as [|[k' a] l IH]; simpl; intros N E; [discriminate|].
+    inversion N as [|x r Hni Hnd]; subst.
+    destruct (Base.eqb_spec k k') as [Ek|Nk].
+    - subst k'. rewrite remk_notin_id; auto.
+    - simpl. f_equal. apply IH; auto.
+  Qed.
+
+  Lemma in_pair_keys k a (l : list (K * A)) : In (k, a) l -> In k (keys l).
+  Proof. intros I. unfold keys. apply in_map_iff. exists (k, a). auto. Qed.
+
+  Lemma in_assoc_nodup k a (l : list (K * A)) : NoDup (keys l) -> In (k, a) l -> assoc k l = Some a.
+  Proof.
+    induction l as [|[k' a'] l IH]; simpl; intros N I; [destruct I|].
+    inversion N as [|x r Hni Hnd]; subst.
+    destruct (Base.eqb_spec k k') as [Ek|Nk].
+    - subst k'. destruct I as [E|I]; [inversion E; auto|].
+      exfalso. apply Hni. eapply in_pair_keys; eauto.
+    - destruct I as [E|I]; [inversion E; congruence|auto].
+  Qed.
+
+  Lemma assoc_in_pair k a (l : list (K * A)) : assoc k l = Some a -> In (k, a) l.
+  Proof.
+    induction l as [|[k' a'] l IH]; simpl; intros E; [discriminate|].
+    destruct (Base.eqb_spec k k') as [Ek|Nk]; [inversion E; subst; auto|auto].
+  Qed.
+
+  Lemma remk_head k a (l : list (K * A)) : NoDup (keys ((k, a) :: l)) -> remk k ((k, a) :: l) = l.
+  Proof.
+    intros N. simpl. rewrite keqb_refl. inversion N; subst. apply remk_notin_id; auto.
+  Qed.
+
+  Lemma remk_last k a (l : list (K * A)) : NoDup (keys (l ++ [(k, a)])) -> remk k (l ++ [(k, a)]) = l.
+  Proof.
+    induction l as [|[k' a'] l IH]; simpl; intros N.
+    - rewrite keqb_refl. reflexivity.
+    - inversion N as [|x r Hni Hnd]; subst.
+      destruct (Base.eqb_spec k k') as [Ek|Nk].
+      + subst k'. exfalso. apply Hni. rewrite keys_app. apply in_or_app. right. simpl; auto.
+      + f_equal. apply IH; auto.
+  Qed.
+
+  (* a node sequence [ns] read through [f] gives the entry list [items] *)
+  Variable f : nat -> option (K * A).
+
+  Lemma reads_in ns (items : list (K * A)) n k a :
+    map f ns = map (@Some (K * A)) items -> In n ns -> f n = Some (k, a) -> In (k, a) items.
+  Proof.
+    intros E I Fn. assert (I' : In (f n) (map f ns)) by (apply in_map; auto).
+    rewrite E, Fn in I'. apply in_map_iff in I'. destruct I' as (x & Ex & Ix).
+    inversion Ex; subst. auto.
+  Qed.
+
+  Lemma reads_in_inv ns (items : list (K * A)) k a :
+    map f ns = map (@Some (K * A)) items -> In (k, a) items -> exists n, In n ns /\ f n = Some (k, a).
+  Proof.
+    intros E I. assert (I' : In (Some (k, a)) (map (@Some (K * A)) items)) by (apply in_map; auto).
+    rewrite <- E in I'. apply in_map_iff in I'. destruct I' as (n & En & In'). eauto.
+  Qed.
+
+  Lemma reads_remove ns : forall (items : list (K * A)) n k a,
+    map f ns = map (@Some (K * A)) items -> NoDup (keys items) -> In n ns -> f n = Some (k, a) ->
+    map f (remove_nat n ns) = map (@Some (K * A)) (remk k items).
+  Proof.
+    induction ns as [|x r IH]; intros items n k a E Nk I Fn; [destruct I|].
+    destruct items as [|[k' a'] it]; simpl in E; [discriminate|].
+    injection E as E1 E2. simpl in Nk. inversion Nk as [|y q Hni Hnd]; subst.
+    simpl. destruct (Nat.eqb_spec n x) as [Enx|Nnx].
+    - subst x. rewrite Fn in E1. inversion E1; subst k' a'. rewrite keqb_refl.
+      rewrite remk_notin_id by auto. exact E2.
+    - destruct I as [I|I]; [congruence|].
+      assert (Nkk : k <> k').
+      { intros Ek; subst k'. apply Hni. eapply in_pair_keys. eapply reads_in; eauto. }
+      rewrite keqb_neq by auto. simpl. f_equal; [exact E1|]. eapply IH; eauto.
+  Qed.
+End ReadFacts.
+
+Section VecFacts.
+  Local Open Scope list_scope.
+  Local Open Scope nat_scope.
+
+  Lemma nth_error_upd_eq A (l : list A) : forall i x, i < List.length l ->
+    nth_error (upd_nth i x l) i = Some x.
+  Proof.
+    induction l as [|y r IH]; intros [|j] x Hi; simpl in *; try lia; auto. apply IH; lia.
+  Qed.
+  Lemma nth_error_upd_neq A (l : list A) : forall i j x, j <> i ->
+    nth_error (upd_nth i x l) j = nth_error l j.
+  Proof.
+    induction l as [|y r IH]; intros [|i] [|j] x Hne; simpl; try congruence; auto.
+  Qed.
+  Lemma upd_nth_len A (l : list A) : forall i x, List.length (upd_nth i x l) = List.length l.
+  Proof. induction l as [|y r IH]; intros [|i] x; simpl; auto. Qed.
+  Lemma vget_ok A what (l : list A) i a : nth_error l i = Some a -> vget what l i = Ok a.
+  Proof. intros E. unfold vget. rewrite E. reflexivity. Qed.
+  Lemma vset_ok A what (l : list A) i a : i < List.length l -> vset what l i a = Ok (upd_nth i a l).
+  Proof. intros Hi. unfold vset. destruct (Nat.ltb_spec i (List.length l)); [reflexivity|lia]. Qed.
+
+  Lemma Forall2_in_r A B (R : A -> B -> Prop) l l' : Forall2 R l l' ->
+    forall y, In y l' -> exists x, In x l /\ R x y.
+  Proof.
+    induction 1 as [|x y l l' Rxy F IH]; intros z I; [destruct I|].
+    destruct I as [E|I]; [subst; exists x; simpl; auto|].
+    destruct (IH z I) as (x' & I' & R'). exists x'. simpl; auto.
+  Qed.
+  Lemma Forall2_len A B (R : A -> B -> Prop) l l' : Forall2 R l l' -> List.length l = List.length l'.
+  Proof. induction 1; simpl; auto. Qed.
+  Lemma nodup_app_l A (a b : list A) : NoDup (a ++ b) -> NoDup a.
+  Proof.
+    induction a as [|x a IH]; simpl; intros N; [constructor|].
+    inversion N as [|y r Hni Hnd]; subst. constructor; auto.
+    intros I. apply Hni. apply in_or_app; auto.
+  Qed.
+End VecFacts.
+
+(* ------------------------------------------------------------------------------------ *)
+(* the representation relation through an explicit decomposition  list = used ++ free    *)
+(* ------------------------------------------------------------------------------------ *)
+Section RepFacts.
+  Context {K V : Type} `{EqDec K}.
+  Local Open Scope list_scope.
+  Local Open Scope nat_scope.
+
+  Definition polof (mru : bool) : lc_policy := if mru then mru_policy else lru_policy.
+  (* the used nodes oldest first *)
+  Definition ord (mru : bool) (used : list nat) : list nat := if mru then used else rev used.
+  (* the used nodes after do_access of node n *)
+  Definition touched (mru : bool) (used : list nat) (n : nat) : list nat :=
+    if mru then remove_nat n used ++ [n] else n :: remove_nat n used.
+
+  Lemma in_ord mru used n : In n (ord mru used) <-> In n used.
+  Proof. destruct mru; simpl; [tauto|]. symmetry. apply in_rev. Qed.
+  Lemma length_ord mru used : List.length (ord mru used) = List.length used.
+  Proof. destruct mru; simpl; auto. apply rev_length. Qed.
+  Lemma ord_touched mru used n : NoDup used ->
+    ord mru (touched mru used n) = remove_nat n (ord mru used) ++ [n].
+  Proof. intros N. destruct mru; simpl; auto. rewrite remove_nat_rev by auto. reflexivity. Qed.
+  Lemma ord_remove mru used n : NoDup used ->
+    ord mru (remove_nat n used) = remove_nat n (ord mru used).
+  Proof. intros N. destruct mru; simpl; auto. symmetry. apply remove_nat_rev; auto. Qed.
+  Lemma perm_touched mru used n : In n used -> Permutation (touched mru used n) used.
+  Proof.
+    intros I. destruct mru; simpl.
+    - eapply perm_trans; [|apply perm_remove_nat; eauto]. symmetry. apply Permutation_cons_append.
+    - apply perm_remove_nat; auto.
+  Qed.
+
+  Definition cellkey (es : list (lelem K V)) (ix : list (K * nat)) (n : nat) (k : K) : Prop :=
+    exists v, nth_error es n = Some {| le_keyed := Some k; le_pos := Some (It n); le_val := Some v |} /\
+              assoc k ix = Some n.
+  Definition cellok (es : list (lelem K V)) (ix : list (K * nat)) (n : nat) : Prop :=
+    exists k v, nth_error es n = Some {| le_keyed := Some k; le_pos := Some (It n); le_val := Some v |} /\
+                assoc k ix = Some n.
+
+  Definition rep2 (mru : bool) (l : lrul K V) (s : lc K V) (used free : list nat) : Prop :=
+    ll_list l = used ++ free /\ ll_end l = l_begin free /\
+    ll_cap l = lc_cap s /\ List.length (ll_elems l) = lc_cap s /\
+    NoDup (used ++ free) /\ List.length (used ++ free) = lc_cap s /\
+    (forall n, In n (used ++ free) -> n < lc_cap s) /\
+    ll_used l = List.length used /\ List.length (ll_index l) = List.length used /\
+    NoDup (keys (ll_index l)) /\
+    map (cell_entry l) (ord mru used) = map (@Some (K * V)) (lc_items s) /\
+    (forall n, In n used -> cellok (ll_elems l) (ll_index l) n) /\
+    (forall k n, assoc k (ll_index l) = Some n -> In n used).
+
+  Lemma rep2_intro mru l s used free : rep2 mru l s used free -> ll_rep mru l s.
+  Proof.
+    intros (Hl & He & Hc & Hle & Hnd & Hlen & Hb & Hu & Hix & Hnk & Hmap & HA & HB).
+    unfold ll_rep. cbv zeta. rewrite Hl, He.
+    rewrite used_part_app by (apply nodup_sep; auto). rewrite valid_begin_app.
+    split; [exact Hc|]. split; [exact Hle|]. split; [exact Hnd|]. split; [exact Hlen|].
+    split; [exact Hb|]. split; [reflexivity|]. split; [exact Hu|]. split; [exact Hix|].
+    split; [exact Hnk|]. split; [exact Hmap|]. split; [exact HA|exact HB].
+  Qed.
+
+  Lemma rep2_elim mru l s : ll_rep mru l s -> exists used free, rep2 mru l s used free.
+  Proof.
+    intros R. unfold ll_rep in R. cbv zeta in R.
+    destruct R as (Hc & Hle & Hnd & Hlen & Hb & Hv & Hu & Hix & Hnk & Hmap & HA & HB).
+    destruct (valid_decomp _ _ Hv) as (free & E1 & E2).
+    exists (used_part (ll_list l) (ll_end l)), free. unfold rep2.
+    split; [exact E1|]. split; [exact E2|]. split; [exact Hc|]. split; [exact Hle|].
+    split; [rewrite <- E1; exact Hnd|]. split; [rewrite <- E1; exact Hlen|].
+    split; [rewrite <- E1; exact Hb|]. split; [exact Hu|].
+    split; [exact Hix|]. split; [exact Hnk|]. split; [exact Hmap|]. split; [exact HA|exact HB].
+  Qed.
+
+  (* the index and the used cells are in bijection (counting) *)
+  Lemma cells_list es ix used : (forall n, In n used -> cellok es ix n) ->
+    exists ks, Forall2 (cellkey es ix) used ks.
+  Proof.
+    induction used as [|n u IH]; intros HA.
+    - exists []. constructor.
+    - destruct IH as (ks & F). { intros m I; apply HA; right; auto. }
+      destruct (HA n (or_introl eq_refl)) as (k & v & E1 & E2).
+      exists (k :: ks). constructor; auto. exists v; auto.
+  Qed.
+
+  Lemma index_cell es (ix : list (K * nat)) used :
+    NoDup used -> NoDup (keys ix) -> List.length ix = List.length used ->
+    (forall n, In n used -> cellok es ix n) ->
+    forall k n, assoc k ix = Some n -> cellkey es ix n k /\ In n used.
+  Proof.
+    intros Nu Nk Hlen HA k n E.
+    destruct (cells_list es ix used HA) as (ks & F).
+    assert (Nks : NoDup ks).
+    { clear - F Nu. induction F as [|m k0 u ks0 R0 F IH]; [constructor|].
+      inversion Nu; subst. constructor; auto.
+      intros I. destruct (Forall2_in_r _ _ _ _ _ F _ I) as (m' & I' & (v' & _ & E')).
+      destruct R0 as (v0 & _ & E0). rewrite E0 in E'. inversion E'; subst. auto. }
+    assert (Inc : incl ks (keys ix)).
+    { intros k0 I. destruct (Forall2_in_r _ _ _ _ _ F _ I) as (m & _ & (v & _ & E0)).
+      apply assoc_in. congruence. }
+    assert (Inc' : incl (keys ix) ks).
+    { apply NoDup_length_incl; auto. unfold keys. rewrite map_length, Hlen.
+      rewrite (Forall2_len _ _ _ _ _ F). lia. }
+    assert (Ik : In k ks). { apply Inc'. apply assoc_in. congruence. }
+    destruct (Forall2_in_r _ _ _ _ _ F _ Ik) as (m & Im & (v & E1 & E2)).
+    rewrite E in E2. inversion E2; subst m. split; auto. exists v; auto.
+  Qed.
+
+  Lemma cell_entry_of (l : lrul K V) n k p v :
+    nth_error (ll_elems l) n = Some {| le_keyed := Some k; le_pos := p; le_val := Some v |} ->
+    cell_entry l n = Some (k, v).
+  Proof. intros E. unfold cell_entry. rewrite E. reflexivity. Qed.
+
+  Lemma cell_entry_ext (l1 l2 : lrul K V) n :
+    nth_error (ll_elems l1) n = nth_error (ll_elems l2) n -> cell_entry l1 n = cell_entry l2 n.
+  Proof. intros E. unfold cell_entry. rewrite E. reflexivity. Qed.
+
+  Lemma rep2_nodup_used mru l s used free : rep2 mru l s used free -> NoDup used.
+  Proof.
+    intros (_ & _ & _ & _ & Hnd & _). eapply nodup_app_l. exact Hnd.
+  Qed.
+
+  Lemma rep2_len mru l s used free : rep2 mru l s used free ->
+    List.length (lc_items s) = List.length used.
+  Proof.
+    intros (_ & _ & _ & _ & _ & _ & _ & _ & _ & _ & Hmap & _).
+    apply (f_equal (@List.length _)) in Hmap. rewrite !map_length, length_ord in Hmap. auto.
+  Qed.
+
+  Lemma rep2_lookup mru l s used free k n :
+    rep2 mru l s used free -> NoDup (keys (lc_items s)) -> assoc k (ll_index l) = Some n ->
+    In n used /\
+    exists v, nth_error (ll_elems l) n =
+                Some {| le_keyed := Some k; le_pos := Some (It n); le_val := Some v |} /\
+              assoc k (lc_items s) = Some v.
+  Proof.
+    intros R Nk E. pose proof (rep2_nodup_used _ _ _ _ _ R) as Nu.
+    destruct R as (Hl & He & Hc & Hle & Hnd & Hlen & Hb & Hu & Hix & Hnk & Hmap & HA & HB).
+    destruct (index_cell _ _ _ Nu Hnk Hix HA k n E) as ((v & E1 & _) & I).
+    split; auto. exists v. split; auto.
+    apply in_assoc_nodup; auto.
+    eapply reads_in; [exact Hmap|apply in_ord; exact I|]. eapply cell_entry_of; eauto.
+  Qed.
+
+  Lemma rep2_lookup_none mru l s used free k :
+    rep2 mru l s used free -> assoc k (ll_index l) = None -> assoc k (lc_items s) = None.
+  Proof.
+    intros R E.
+    destruct R as (Hl & He & Hc & Hle & Hnd & Hlen & Hb & Hu & Hix & Hnk & Hmap & HA & HB).
+    destruct (assoc k (lc_items s)) as [v|] eqn:Ea; auto. exfalso.
+    apply assoc_in_pair in Ea.
+    destruct (reads_in_inv _ _ _ _ _ Hmap Ea) as (n & I & Fn).
+    apply in_ord in I. destruct (HA n I) as (k' & v' & E1 & E2).
+    rewrite (cell_entry_of _ _ _ _ _ E1) in Fn. inversion Fn; subst. congruence.
+  Qed.
+
+  (* do_access on a used node *)
+  Lemma ll_access_shape mru (s : lrul K V) e used free n :
+    ll_list s = used ++ free -> ll_end s = l_begin free -> NoDup (used ++ free) -> In n used ->
+    le_pos e = Some (It n) ->
+    ll_access mru s e =
+      Ok {| ll_cap := ll_cap s; ll_elems := ll_elems s; ll_index := ll_index s;
+            ll_list := touched mru used n ++ free; ll_end := ll_end s; ll_used := ll_used s |}.
+  Proof.
+    intros Hl He N I Hp. unfold ll_access, get_pos. rewrite Hp. cbn [bind]. rewrite Hl, He.
+    destruct mru; simpl touched.
+    - rewrite l_splice_end by auto. cbn [bind]. rewrite <- app_assoc. reflexivity.
+    - rewrite l_splice_begin by (apply in_or_app; auto). cbn [bind].
+      rewrite remove_nat_app_in by auto. reflexivity.
+  Qed.
+
+  (* the state reached by touching node n (key k), its cell possibly rewritten with a new value *)
+  Lemma rep2_touch mru t (l : lrul K V) (s : lc K V) used free k n es' v :
+    rep2 mru l s used free -> lc_inv t s -> assoc k (ll_index l) = Some n ->
+    List.length es' = lc_cap s ->
+    nth_error es' n = Some {| le_keyed := Some k; le_pos := Some (It n); le_val := Some v |} ->
+    (forall m, m <> n -> nth_error es' m = nth_error (ll_elems l) m) ->
+    rep2 mru {| ll_cap := ll_cap l; ll_elems := es'; ll_index := ll_index l;
+                ll_list := touched mru used n ++ free; ll_end := ll_end l; ll_used := ll_used l |}
+         (lc_with s (remk k (lc_items s) ++ [(k, v)])) (touched mru used n) free.
+  Proof.
+    intros R (Nk & _ & _) E Hes Hn Hm.
+    pose proof (rep2_nodup_used _ _ _ _ _ R) as Nu.
+    destruct (rep2_lookup _ _ _ _ _ _ _ R Nk E) as (I & v0 & E1 & E2).
+    destruct R as (Hl & He & Hc & Hle & Hnd & Hlen & Hb & Hu & Hix & Hnk & Hmap & HA & HB).
+    pose proof (perm_touched mru used n I) as P.
+    assert (P' : Permutation (touched mru used n ++ free) (used ++ free))
+      by (apply Permutation_app_tail; exact P).
+    unfold rep2. cbn [ll_cap ll_elems ll_index ll_list ll_end ll_used lc_with lc_cap lc_items].
+    split; [reflexivity|]. split; [exact He|]. split; [exact Hc|]. split; [exact Hes|].
+    split. { eapply Permutation_NoDup; [symmetry; exact P'|exact Hnd]. }
+    split. { rewrite (Permutation_length P'). exact Hlen. }
+    split. { intros m Im. apply Hb. eapply Permutation_in; eauto. }
+    split. { rewrite (Permutation_length P). exact Hu. }
+    split. { rewrite (Permutation_length P). exact Hix. }
+    split; [exact Hnk|].
+    split.
+    { rewrite ord_touched by auto. rewrite !map_app. f_equal.
+      - erewrite map_ext_in.
+        + eapply reads_remove; [exact Hmap|exact Nk|apply in_ord; exact I|].
+          eapply cell_entry_of; eauto.
+        + intros m Im. apply cell_entry_ext. cbn [ll_elems]. apply Hm.
+          apply in_remove_nat in Im; [tauto|].
+          destruct mru; simpl; auto. apply NoDup_rev. auto.
+      - simpl. f_equal. eapply cell_entry_of. cbn [ll_elems]. eauto. }
+    split.
+    { intros m Im. assert (Im' : In m used) by (eapply Permutation_in; eauto).
+      destruct (Nat.eq_dec m n) as [Emn|Nmn].
+      - subst m. exists k, v. auto.
+      - unfold cellok. rewrite Hm by auto. apply HA. auto. }
+    intros k' m E'. eapply Permutation_in; [symmetry; exact P|]. eapply HB; eauto.
+  Qed.
+End RepFacts.
+
+(* ------------------------------------------------------------------------------------ *)
+(* the do_* helpers                                                                      *)
+(* ------------------------------------------------------------------------------------ *)
+Section OpFacts.
+  Context {K V : Type} `{EqDec K}.
+  Local Open Scope list_scope.
+  Local Open Scope nat_scope.
+
+  Lemma cell_entry_elems (l1 l2 : lrul K V) : ll_elems l1 = ll_elems l2 -> cell_entry l1 = cell_entry l2.
+  Proof. intros E. unfold cell_entry. rewrite E. reflexivity. Qed.
+
+  (* do_erase(n) for the node n the index gives for key k: n becomes the first free node *)
+  Lemma ll_do_erase_rep2 mru t (l : lrul K V) (s : lc K V) used free k n :
+    rep2 mru l s used free -> lc_inv t s -> assoc k (ll_index l) = Some n ->
+    exists l', ll_do_erase l n = Ok l' /\
+               rep2 mru l' (lc_with s (remk k (lc_items s))) (remove_nat n used) (n :: free).
+  Proof.
+    intros R (Nk & _ & _) E.
+    pose proof (rep2_nodup_used _ _ _ _ _ R) as Nu.
+    destruct (rep2_lookup _ _ _ _ _ _ _ R Nk E) as (I & v0 & E1 & E2).
+    assert (R0 := R).
+    destruct R as (Hl & He & Hc & Hle & Hnd & Hlen & Hb & Hu & Hix & Hnk & Hmap & HA & HB).
+    assert (P1 : Permutation (n :: remove_nat n used) used) by (apply perm_remove_nat; auto).
+    assert (P : Permutation (remove_nat n used ++ n :: free) (used ++ free)).
+    { eapply perm_trans; [symmetry; apply Permutation_middle|].
+      change (n :: remove_nat n used ++ free) with ((n :: remove_nat n used) ++ free).
+      apply Permutation_app_tail. exact P1. }
+    assert (Nd' : NoDup (remove_nat n used ++ n :: free)).
+    { eapply Permutation_NoDup; [symmetry; exact P|exact Hnd]. }
+    destruct (@exists_last _ used) as (u & b & Eu). { intros E0; rewrite E0 in I; destruct I. }
+    assert (Hp : l_prev (used ++ free) (l_begin free) = Ok (It b)).
+    { rewrite Eu. rewrite <- app_assoc. simpl. apply l_prev_app.
+      rewrite Eu in Hnd. rewrite <- app_assoc in Hnd. exact Hnd. }
+    assert (Hs : (if iter_eqb (It n) (It b) then Ok (used ++ free)
+                  else l_splice (used ++ free) (l_begin free) (It n))
+                 = Ok (remove_nat n used ++ n :: free)).
+    { simpl iter_eqb. destruct (Nat.eqb_spec n b) as [Enb|Nnb].
+      - subst b. rewrite Eu. rewrite remove_nat_last.
+        + rewrite <- app_assoc. reflexivity.
+        + rewrite Eu in Nu. apply NoDup_remove_2 in Nu. rewrite app_nil_r in Nu. exact Nu.
+      - apply l_splice_end; auto. }
+    unfold ll_do_erase. rewrite (vget_ok _ _ _ _ _ E1). cbn [bind]. unfold get_pos.
+    cbn [le_pos le_keyed bind]. rewrite Hl, He. rewrite Hp. cbn [bind]. rewrite Hs. cbn [bind].
+    rewrite l_prev_app by exact Nd'. cbn [bind].
+    unfold index_erase. rewrite E. cbn [bind].
+    destruct (Nat.eqb_spec (ll_used l) 0) as [Ez|Nz].
+    { exfalso. rewrite Hu, Eu, app_length in Ez. simpl in Ez. lia. }
+    eexists. split; [reflexivity|].
+    unfold rep2. cbn [ll_cap ll_elems ll_index ll_list ll_end ll_used lc_with lc_cap lc_items].
+    split; [reflexivity|]. split; [reflexivity|]. split; [exact Hc|]. split; [exact Hle|].
+    split; [exact Nd'|].
+    split. { rewrite (Permutation_length P). exact Hlen. }
+    split. { intros m Im. apply Hb. eapply Permutation_in; eauto. }
+    split. { apply Permutation_length in P1. simpl in P1. lia. }
+    split. { apply Permutation_length in P1. simpl in P1.
+             pose proof (length_remk_S k (ll_index l) n Hnk E). lia. }
+    split; [apply nodup_remk; exact Hnk|].
+    split.
+    { rewrite ord_remove by auto.
+      match goal with |- map (cell_entry ?l') _ = _ => rewrite (cell_entry_elems l' l eq_refl) end.
+      eapply reads_remove; [exact Hmap|exact Nk|apply in_ord; exact I|].
+      eapply cell_entry_of; eauto. }
+    split.
+    { intros m Im. apply in_remove_nat in Im; [|exact Nu]. destruct Im as [Im Nmn].
+      destruct (HA m Im) as (km & vm & Em1 & Em2). exists km, vm. split; auto.
+      rewrite assoc_remk_other; auto. intros Ek; subst km. rewrite E in Em2. inversion Em2; auto. }
+    intros k' m E'. destruct (Base.eqb_spec k' k) as [Ek|Nkk].
+    { subst k'. rewrite assoc_remk_same in E'. discriminate. }
+    rewrite assoc_remk_other in E' by auto.
+    destruct (rep2_lookup _ _ _ _ _ _ _ R0 Nk E') as (Im & vm & Em1 & _).
+    apply in_remove_nat; auto. split; auto. intros Emn; subst m.
+    rewrite E1 in Em1. inversion Em1; auto.
+  Qed.
+
+  (* do_prune() on a full cache: the victim is the last node of the list *)
+  Lemma ll_do_prune_rep2 mru t (l : lrul K V) (s : lc K V) used free :
+    rep2 mru l s used free -> lc_inv t s -> lc_cap s <= List.length (lc_items s) ->
+    exists l' used' free' kb, ll_do_prune l = Ok l' /\
+      rep2 mru l' (lc_with s (remk kb (lc_items s))) used' free' /\
+      remk kb (lc_items s) = (if mru then removelast (lc_items s) else tl (lc_items s)) /\
+      List.length (remk kb (lc_items s)) < lc_cap s.
+  Proof.
+    intros R I Hfull. assert (I0 := I). destruct I as (Nk & Hl1 & Hc1).
+    pose proof (rep2_len _ _ _ _ _ R) as Hlen'.
+    assert (R0 := R).
+    destruct R as (Hl & He & Hc & Hle & Hnd & Hlen & Hb & Hu & Hix & Hnk & Hmap & HA & HB).
+    assert (Hfree : free = []).
+    { rewrite app_length in Hlen. destruct free; auto. simpl in Hlen. lia. }
+    subst free.
+    destruct (@exists_last _ used) as (u & b & Eu).
+    { intros E0. rewrite E0 in Hlen'. simpl in Hlen'. lia. }
+    assert (Ib : In b used). { rewrite Eu. apply in_or_app; right; simpl; auto. }
+    destruct (HA b Ib) as (kb & vb & Eb1 & Eb2).
+    destruct (ll_do_erase_rep2 mru t l s used [] kb b R0 I0 Eb2) as (l' & D & R').
+    pose proof (cell_entry_of _ _ _ _ _ Eb1) as Fb.
+    assert (Ek : remk kb (lc_items s) = if mru then removelast (lc_items s) else tl (lc_items s)).
+    { destruct mru; simpl ord in Hmap.
+      - destruct (@exists_last _ (lc_items s)) as (it & x & Ei).
+        { intros E0; rewrite E0 in Hfull; simpl in Hfull. lia. }
+        rewrite Ei in Hmap, Nk |- *. rewrite Eu in Hmap. rewrite !map_app in Hmap. simpl in Hmap.
+        apply app_inj_tail in Hmap. destruct Hmap as (_ & Ex). rewrite Fb in Ex.
+        inversion Ex; subst x. rewrite removelast_last. apply remk_last. exact Nk.
+      - rewrite Eu, rev_unit in Hmap.
+        destruct (lc_items s) as [|[k' v'] it] eqn:Ei; simpl in Hmap; [discriminate|].
+        injection Hmap as Ex _. rewrite Fb in Ex. inversion Ex; subst k' v'.
+        simpl tl. apply remk_head. exact Nk. }
+    exists l', (remove_nat b used), [b], kb. split; [|split; [exact R'|split; [exact Ek|]]].
+    - unfold ll_do_prune. destruct (Nat.ltb_spec 0 (ll_used l)) as [Hp|Hz].
+      + rewrite Hl, Eu, app_nil_r, l_back_app. cbn [bind]. exact D.
+      + exfalso. lia.
+    - pose proof (rep2_len _ _ _ _ _ R') as L. cbn [lc_with lc_items] in L. rewrite L.
+      pose proof (perm_remove_nat b used Ib) as P1. apply Permutation_length in P1. simpl in P1. lia.
+  Qed.
+
+  (* the state after claiming the first free node n for (k, v) *)
+  Lemma rep2_claim mru (l : lrul K V) (s : lc K V) used n free' k v :
+    rep2 mru l s used (n :: free') -> assoc k (ll_index l) = None ->
+    rep2 mru {| ll_cap := ll_cap l;
+                ll_elems := upd_nth n {| le_keyed := Some k; le_pos := Some (It n); le_val := Some v |}
+                                    (ll_elems l);
+                ll_index := ll_index l ++ [(k, n)];
+                ll_list := (if mru then used ++ [n] else n :: used) ++ free';
+                ll_end := l_begin free'; ll_used := S (ll_used l) |}
+         (lc_with s (lc_items s ++ [(k, v)])) (if mru then used ++ [n] else n :: used) free'.
+  Proof.
+    intros R E.
+    pose proof (rep2_nodup_used _ _ _ _ _ R) as Nu.
+    destruct R as (Hl & He & Hc & Hle & Hnd & Hlen & Hb & Hu & Hix & Hnk & Hmap & HA & HB).
+    assert (Nn : ~ In n used).
+    { apply NoDup_remove_2 in Hnd. intros I. apply Hnd. apply in_or_app; auto. }
+    assert (Hn : n < lc_cap s). { apply Hb. apply in_or_app. right; left; auto. }
+    set (used' := if mru then used ++ [n] else n :: used).
+    assert (P : Permutation (used' ++ free') (used ++ n :: free')).
+    { unfold used'. destruct mru.
+      - rewrite <- app_assoc. reflexivity.
+      - apply Permutation_middle. }
+    assert (Lu : List.length used' = S (List.length used)).
+    { unfold used'. destruct mru; simpl; auto. rewrite app_length. simpl. lia. }
+    assert (Iu : forall m, In m used' <-> m = n \/ In m used).
+    { intros m. unfold used'. destruct mru; simpl.
+      - rewrite in_app_iff. simpl. split; intros [X|X]; auto. destruct X; auto. tauto.
+      - split; intros [X|X]; auto. }
+    assert (Ou : ord mru used' = ord mru used ++ [n]).
+    { unfold used'. destruct mru; simpl; auto. }
+    unfold rep2. cbn [ll_cap ll_elems ll_index ll_list ll_end ll_used lc_with lc_cap lc_items].
+    split; [reflexivity|]. split; [reflexivity|]. split; [exact Hc|].
+    split; [rewrite upd_nth_len; exact Hle|].
+    split. { eapply Permutation_NoDup; [symmetry; exact P|exact Hnd]. }
+    split. { rewrite (Permutation_length P). exact Hlen. }
+    split. { intros m Im. apply Hb. eapply Permutation_in; eauto. }
+    split; [lia|].
+    split. { rewrite app_length. simpl. lia. }
+    split. { rewrite keys_app. simpl. apply nodup_snoc; auto. apply assoc_none. exact E. }
+    split.
+    { rewrite Ou, !map_app. f_equal.
+      - rewrite <- Hmap. apply map_ext_in. intros m Im. apply cell_entry_ext. cbn [ll_elems].
+        apply nth_error_upd_neq. apply in_ord in Im. intros Emn; subst; auto.
+      - simpl. f_equal. eapply cell_entry_of. cbn [ll_elems]. apply nth_error_upd_eq. lia. }
+    split.
+    { intros m Im. apply Iu in Im. destruct Im as [Emn|Im].
+      - subst m. exists k, v. split; [apply nth_error_upd_eq; lia|].
+        rewrite assoc_snoc, E, keqb_refl. reflexivity.
+      - destruct (HA m Im) as (km & vm & Em1 & Em2). exists km, vm. split.
+        + rewrite nth_error_upd_neq; auto. intros Emn; subst; auto.
+        + rewrite assoc_snoc, Em2. reflexivity. }
+    intros k' m E'. apply Iu. rewrite assoc_snoc in E'.
+    destruct (assoc k' (ll_index l)) as [m0|] eqn:A0.
+    - inversion E'; subst m0. right. eapply HB; eauto.
+    - destruct (Base.eqb k' k); [inversion E'; auto|discriminate].
+  Qed.
+
+  (* do_insert when there is a free node *)
+  Lemma ll_do_insert_nonfull mru t (l : lrul K V) (s : lc K V) used free k v :
+    rep2 mru l s used free -> lc_inv t s -> List.length (lc_items s) < lc_cap s ->
+    assoc k (ll_index l) = None ->
+    exists l' used' free', ll_do_insert mru l k v = Ok l' /\
+      rep2 mru l' (lc_with s (lc_items s ++ [(k, v)])) used' free'.
+  Proof.
+    intros R (Nk & Hl1 & Hc1) Hlt E.
+    pose proof (rep2_len _ _ _ _ _ R) as Hlen'.
+    assert (R0 := R).
+    destruct R as (Hl & He & Hc & Hle & Hnd & Hlen & Hb & Hu & Hix & Hnk & Hmap & HA & HB).
+    destruct free as [|n free']. { rewrite app_nil_r in Hlen. lia. }
+    pose proof (rep2_claim mru l s used n free' k v R0 E) as RC.
+    assert (Nn : ~ In n used).
+    { apply NoDup_remove_2 in Hnd. intros I. apply Hnd. apply in_or_app; auto. }
+    assert (Hn : n < lc_cap s). { apply Hb. apply in_or_app. right; left; auto. }
+    assert (Ea : used ++ n :: free' = (used ++ [n]) ++ free') by (rewrite <- app_assoc; reflexivity).
+    unfold ll_do_insert.
+    assert (C1 : (List.length (ll_elems l) <=? ll_used l) = false) by (apply Nat.leb_gt; lia).
+    rewrite C1. cbn [bind]. rewrite Hl, He. simpl l_begin. unfold l_deref.
+    rewrite mem_nat_in by (apply in_or_app; right; left; auto). cbn [bind].
+    unfold index_emplace.
+    assert (C2 : (List.length (ll_index l) <? ll_cap l) = true) by (apply Nat.ltb_lt; lia).
+    rewrite C2. cbn [bind]. rewrite vset_ok by lia. cbn [bind].
+    unfold l_next. rewrite mem_nat_in by (apply in_or_app; right; left; auto). cbn [bind].
+    rewrite after_app by exact Nn.
+    destruct mru.
+    - rewrite Ea. eexists. exists (used ++ [n]), free'. split; [reflexivity|]. exact RC.
+    - match goal with |- context [ll_access false ?s2 ?e2] =>
+        pose proof (ll_access_shape false s2 e2 (used ++ [n]) free' n Ea eq_refl) as HS end.
+      cbn [ll_cap ll_elems ll_index ll_list ll_end ll_used] in HS.
+      rewrite HS; [| rewrite <- Ea; exact Hnd | apply in_or_app; right; left; auto | reflexivity].
+      unfold touched. rewrite remove_nat_last by exact Nn.
+      eexists. exists (n :: used), free'. split; [reflexivity|]. exact RC.
+  Qed.
+
+  Lemma victim_back_polof mru : lc_victim_back (polof mru) = mru.
+  Proof. destruct mru; reflexivity. Qed.
+  Lemma touch_polof mru : lc_touch (polof mru) = true.
+  Proof. destruct mru; reflexivity. Qed.
+
+  (* do_insert *)
+  Lemma ll_do_insert_rep2 mru t (l : lrul K V) (s : lc K V) used free k v :
+    rep2 mru l s used free -> lc_inv t s -> assoc k (ll_index l) = None ->
+    exists l' used' free', ll_do_insert mru l k v = Ok l' /\
+      rep2 mru l' (lc_with s (lc_evict (polof mru) s ++ [(k, v)])) used' free'.
+  Proof.
+    intros R I E. unfold lc_evict. rewrite victim_back_polof.
+    destruct (Nat.leb_spec (lc_cap s) (List.length (lc_items s))) as [Hfull|Hnf].
+    - destruct (ll_do_prune_rep2 mru t l s used free R I Hfull)
+        as (l1 & u1 & f1 & kb & D & R1 & Ek & L1).
+      rewrite <- Ek.
+      set (s1 := lc_with s (remk kb (lc_items s))) in *.
+      assert (I1 : lc_inv t s1) by (apply inv_rem with t; exact I).
+      assert (A1 : assoc k (ll_index l1) = None).
+      { destruct (assoc k (ll_index l1)) as [m|] eqn:A; auto. exfalso.
+        destruct I1 as (Nk1 & _).
+        destruct (rep2_lookup _ _ _ _ _ _ _ R1 Nk1 A) as (_ & v1 & _ & E2).
+        pose proof (rep2_lookup_none _ _ _ _ _ _ R E) as N0.
+        unfold s1 in E2. cbn [lc_with lc_items] in E2.
+        destruct (Base.eqb_spec k kb) as [Ekk|Nkk].
+        - subst kb. rewrite assoc_remk_same in E2. discriminate.
+        - rewrite assoc_remk_other in E2 by auto. congruence. }
+      destruct (ll_do_insert_nonfull mru t l1 s1 u1 f1 k v R1 I1 L1 A1) as (l' & u' & f' & D2 & R2).
+      assert (DI : ll_do_insert mru l k v = ll_do_insert mru l1 k v).
+      { pose proof (rep2_len _ _ _ _ _ R) as La. pose proof (rep2_len _ _ _ _ _ R1) as Lb.
+        destruct R as (_ & _ & _ & Hle & _ & _ & _ & Hu & _).
+        destruct R1 as (_ & _ & _ & Hle1 & _ & _ & _ & Hu1 & _).
+        unfold ll_do_insert.
+        assert (Ca : (List.length (ll_elems l) <=? ll_used l) = true) by (apply Nat.leb_le; lia).
+        assert (Cb : (List.length (ll_elems l1) <=? ll_used l1) = false).
+        { apply Nat.leb_gt. rewrite Hle1, Hu1, <- Lb. exact L1. }
+        rewrite Ca, Cb, D. reflexivity. }
+      rewrite DI. exists l', u', f'. split; [exact D2|exact R2].
+    - apply (ll_do_insert_nonfull mru t l s used free k v R I Hnf E).
+  Qed.
+
+  (* do_insert_update *)
+  Lemma ll_ins_refines mru t (l : lrul K V) (s : lc K V) k v a s1 b :
+    lc_inv t s -> ll_rep mru l s -> lc_ins (polof mru) s k v a = (s1, b) ->
+    exists l', ll_ins mru l k v a = Ok (l', b) /\ ll_rep mru l' s1 /\ lc_inv t s1 /\
+               lc_cap s1 = lc_cap s.
+  Proof.
+    intros I R E. destruct (rep2_elim _ _ _ R) as (used & free & R2).
+    assert (I0 := I). destruct I as (Nk & Hl1 & Hc1).
+    unfold lc_ins in E. unfold ll_ins.
+    destruct (assoc k (ll_index l)) as [n|] eqn:A.
+    - destruct (rep2_lookup _ _ _ _ _ _ _ R2 Nk A) as (In & v0 & E1 & E2). rewrite E2 in E.
+      destruct (a_upd a).
+      + rewrite touch_polof in E. inversion E; subst s1 b. clear E.
+        assert (R0 := R2).
+        destruct R2 as (Hl & He & Hc & Hle & Hnd & Hlen & Hb & Hu & Hix & Hnk & Hmap & HA & HB).
+        assert (Hn : n < lc_cap s) by (apply Hb; apply in_or_app; auto).
+        unfold ll_do_update. rewrite (vget_ok _ _ _ _ _ E1). cbn [bind le_keyed le_pos].
+        rewrite vset_ok by lia. cbn [bind].
+        match goal with |- context [ll_access mru ?s2 ?e2] =>
+          pose proof (ll_access_shape mru s2 e2 used free n Hl He Hnd In eq_refl) as HS end.
+        cbn [ll_cap ll_elems ll_index ll_list ll_end ll_used] in HS. rewrite HS. cbn [bind].
+        eexists. split; [reflexivity|]. split.
+        * eapply rep2_intro. eapply (rep2_touch mru t l s used free k n); eauto.
+          -- rewrite upd_nth_len. exact Hle.
+          -- apply nth_error_upd_eq. lia.
+          -- intros m Nm. apply nth_error_upd_neq. exact Nm.
+        * split; [|reflexivity]. apply inv_touch with t; auto. congruence.
+      + inversion E; subst s1 b. exists l. auto.
+    - rewrite (rep2_lookup_none _ _ _ _ _ _ R2 A) in E.
+      destruct (a_ins a).
+      + inversion E; subst s1 b. clear E.
+        destruct (ll_do_insert_rep2 mru t l s used free k v R2 I0 A) as (l' & u' & f' & D & R').
+        rewrite D. cbn [bind]. exists l'. split; [reflexivity|].
+        split; [eapply rep2_intro; eauto|]. split; [|reflexivity].
+        apply inv_new with t; auto. eapply rep2_lookup_none; eauto.
+      + inversion E; subst s1 b. exists l. auto.
+  Qed.
+
+  (* erase(key) *)
+  Lemma ll_erase_refines mru t (l : lrul K V) (s : lc K V) k s1 b :
+    lc_inv t s -> ll_rep mru l s -> lc_erase s k = (s1, b) ->
+    exists l', ll_erase l k = Ok (l', b) /\ ll_rep mru l' s1 /\ lc_inv t s1 /\ lc_cap s1 = lc_cap s.
+  Proof.
+    intros I R E. destruct (rep2_elim _ _ _ R) as (used & free & R2).
+    assert (I0 := I). destruct I as (Nk & Hl1 & Hc1).
+    unfold lc_erase in E. unfold ll_erase.
+    destruct (assoc k (ll_index l)) as [n|] eqn:A.
+    - destruct (rep2_lookup _ _ _ _ _ _ _ R2 Nk A) as (In & v0 & E1 & E2). rewrite E2 in E.
+      inversion E; subst s1 b. clear E.
+      destruct (ll_do_erase_rep2 mru t l s used free k n R2 I0 A) as (l' & D & R').
+      rewrite D. cbn [bind]. exists l'. split; [reflexivity|].
+      split; [eapply rep2_intro; eauto|]. split; [|reflexivity]. apply inv_rem with t; auto.
+    - rewrite (rep2_lookup_none _ _ _ _ _ _ R2 A) in E. inversion E; subst s1 b. exists l. auto.
+  Qed.
+
+  (* do_find *)
+  Lemma ll_find_refines mru t (l : lrul K V) (s : lc K V) k pk s1 r :
+    lc_inv t s -> ll_rep mru l s -> lc_find (polof mru) s k pk = (s1, r) ->
+    exists l', ll_find mru l k pk = Ok (l', r) /\ ll_rep mru l' s1 /\ lc_inv t s1 /\
+               lc_cap s1 = lc_cap s.
+  Proof.
+    intros I R E. destruct (rep2_elim _ _ _ R) as (used & free & R2).
+    assert (I0 := I). destruct I as (Nk & Hl1 & Hc1).
+    unfold lc_find in E. unfold ll_find.
+    destruct (assoc k (ll_index l)) as [n|] eqn:A.
+    - destruct (rep2_lookup _ _ _ _ _ _ _ R2 Nk A) as (In & v0 & E1 & E2). rewrite E2 in E.
+      rewrite touch_polof in E. rewrite (vget_ok _ _ _ _ _ E1). cbn [bind le_val].
+      destruct pk; simpl in E; inversion E; subst s1 r; clear E.
+      + cbn [bind]. exists l. auto.
+      + assert (R0 := R2).
+        destruct R2 as (Hl & He & Hc & Hle & Hnd & Hlen & Hb & Hu & Hix & Hnk & Hmap & HA & HB).
+        match goal with |- context [ll_access mru ?s2 ?e2] =>
+          pose proof (ll_access_shape mru s2 e2 used free n Hl He Hnd In eq_refl) as HS end.
+        rewrite HS. cbn [bind]. eexists. split; [reflexivity|]. split.
+        * eapply rep2_intro. eapply (rep2_touch mru t l s used free k n); eauto.
+        * split; [|reflexivity]. apply inv_touch with t; auto. congruence.
+    - rewrite (rep2_lookup_none _ _ _ _ _ _ R2 A) in E. inversion E; subst s1 r. exists l. auto.
+  Qed.
+End OpFacts.
+
+(* ------------------------------------------------------------------------------------ *)
+(* range calls                                                                           *)
+(* ------------------------------------------------------------------------------------ *)
+Section RangeFacts.
+  Context {K V : Type} `{EqDec K}.
+  Local Open Scope list_scope.
+  Local Open Scope nat_scope.
+
+  Lemma ll_ins_range_refines mru xs : forall t (l : lrul K V) (s : lc K V) a n,
+    lc_inv t s -> ll_rep mru l s ->
+    exists l', ll_ins_range mru l xs a n = Ok (l', snd (lc_ins_range (polof mru) s xs a n)) /\
+               ll_rep mru l' (fst (lc_ins_range (polof mru) s xs a n)) /\
+               lc_inv t (fst (lc_ins_range (polof mru) s xs a n)) /\
+               lc_cap (fst (lc_ins_range (polof mru) s xs a n)) = lc_cap s.
+  Proof.
+    induction xs as [|[[z k] v] r IH]; intros t l s a n I R; simpl.
+    - exists l. auto.
+    - destruct (lc_ins (polof mru) s k v a) as [s1 b] eqn:E.
+      destruct (ll_ins_refines mru t l s k v a s1 b I R E) as (l1 & D1 & R1 & I1 & C1).
+      rewrite D1. cbn [bind].
+      destruct (IH t l1 s1 a (if b then S n else n) I1 R1) as (l' & D2 & R2 & I2 & C2).
+      exists l'. split; [exact D2|]. split; [exact R2|]. split; [exact I2|]. congruence.
+  Qed.
+
+  Lemma ll_erase_range_refines mru ks : forall t (l : lrul K V) (s : lc K V) n,
+    lc_inv t s -> ll_rep mru l s ->
+    exists l', ll_erase_range l ks n = Ok (l', snd (lc_erase_range s ks n)) /\
+               ll_rep mru l' (fst (lc_erase_range s ks n)) /\
+               lc_inv t (fst (lc_erase_range s ks n)) /\
+               lc_cap (fst (lc_erase_range s ks n)) = lc_cap s.
+  Proof.
+    induction ks as [|k r IH]; intros t l s n I R; simpl.
+    - exists l. auto.
+    - destruct (lc_erase s k) as [s1 b] eqn:E.
+      destruct (ll_erase_refines mru t l s k s1 b I R E) as (l1 & D1 & R1 & I1 & C1).
+      rewrite D1. cbn [bind].
+      destruct (IH t l1 s1 (if b then S n else n) I1 R1) as (l' & D2 & R2 & I2 & C2).
+      exists l'. split; [exact D2|]. split; [exact R2|]. split; [exact I2|]. congruence.
+  Qed.
+
+  Lemma ll_find_range_refines mru pk ks : forall t (l : lrul K V) (s : lc K V),
+    lc_inv t s -> ll_rep mru l s ->
+    exists l', ll_find_range mru l ks pk = Ok (l', snd (lc_find_range (polof mru) s ks pk)) /\
+               ll_rep mru l' (fst (lc_find_range (polof mru) s ks pk)) /\
+               lc_inv t (fst (lc_find_range (polof mru) s ks pk)) /\
+               lc_cap (fst (lc_find_range (polof mru) s ks pk)) = lc_cap s.
+  Proof.
+    induction ks as [|k r IH]; intros t l s I R; simpl.
+    - exists l. auto.
+    - destruct (lc_find (polof mru) s k pk) as [s1 o] eqn:E.
+      destruct (ll_find_refines mru t l s k pk s1 o I R E) as (l1 & D1 & R1 & I1 & C1).
+      rewrite D1. cbn [bind].
+      destruct (IH t l1 s1 I1 R1) as (l' & D2 & R2 & I2 & C2).
+      rewrite D2. cbn [bind].
+      destruct (lc_find_range (polof mru) s1 r pk) as [s2 os]. simpl in *.
+      exists l'. split; [reflexivity|]. split; [exact R2|]. split; [exact I2|]. congruence.
+  Qed.
+End RangeFacts.
 
 Section LruLitFacts.
   Context {K V : Type} `{EqDec K}.
@@ -9,7 +942,69 @@ Section LruLitFacts.
   Definition pol : lc_policy := if mru then mru_policy else lru_policy.
 
   Theorem ll_rep_init : forall cap, 1 <= cap -> ll_rep (K := K) (V := V) mru (lrul_init cap) (lc_init cap).
-  Admitted.
+  Proof.
+    intros cap Hc. apply (rep2_intro mru _ _ [] (seq 0 cap)).
+    unfold rep2, lrul_init, lc_init.
+    cbn [ll_cap ll_elems ll_index ll_list ll_end ll_used lc_cap lc_items app].
+    split; [reflexivity|]. split; [reflexivity|]. split; [reflexivity|].
+    split; [apply repeat_length|]. split; [apply seq_NoDup|]. split; [apply seq_length|].
+    split. { intros n I. apply in_seq in I. lia. }
+    split; [reflexivity|]. split; [reflexivity|]. split; [constructor|].
+    split. { destruct mru; reflexivity. }
+    split. { intros n []. }
+    intros k n E. discriminate.
+  Qed.
+
+  Lemma ll_step_refines_cap : forall t (l : lrul K V) (s : lc K V) o now rnd,
+      lc_inv t s -> ll_rep mru l s ->
+      exists l', ll_step mru l o now rnd = Ok (l', snd (lc_step pol s o now rnd)) /\
+                 ll_rep mru l' (fst (lc_step pol s o now rnd)) /\
+                 lc_inv now (fst (lc_step pol s o now rnd)) /\
+                 lc_cap (fst (lc_step pol s o now rnd)) = lc_cap s.
+  Proof.
+    intros t l s o now rnd I R. change pol with (polof mru).
+    assert (Hsz : ll_used l = List.length (lc_items s) /\ List.length (ll_elems l) = lc_cap s).
+    { destruct (rep2_elim _ _ _ R) as (used & free & R2).
+      pose proof (rep2_len _ _ _ _ _ R2) as L.
+      destruct R2 as (_ & _ & _ & Hle & _ & _ & _ & Hu & _). split; congruence. }
+    destruct Hsz as [Hsz Hcap].
+    destruct o as [ttl k v a|xs a|k|ks|k pk|ks pk|ks pk|k pk| |d| | | | | ]; simpl;
+      try (exists l; split; [reflexivity|split; [exact R|split; [exact I|reflexivity]]]).
+    - destruct (lc_ins (polof mru) s k v a) as [s1 b] eqn:E.
+      destruct (ll_ins_refines mru t l s k v a s1 b I R E) as (l1 & D1 & R1 & I1 & C1).
+      rewrite D1. cbn [bind]. exists l1. simpl.
+      split; [reflexivity|]. split; [exact R1|]. split; [exact I1|exact C1].
+    - destruct (ll_ins_range_refines mru xs t l s a 0 I R) as (l1 & D1 & R1 & I1 & C1).
+      rewrite D1. cbn [bind].
+      destruct (lc_ins_range (polof mru) s xs a 0) as [s1 n]. simpl in *. exists l1.
+      split; [reflexivity|]. split; [exact R1|]. split; [exact I1|exact C1].
+    - destruct (lc_erase s k) as [s1 b] eqn:E.
+      destruct (ll_erase_refines mru t l s k s1 b I R E) as (l1 & D1 & R1 & I1 & C1).
+      rewrite D1. cbn [bind]. exists l1. simpl.
+      split; [reflexivity|]. split; [exact R1|]. split; [exact I1|exact C1].
+    - destruct (ll_erase_range_refines mru ks t l s 0 I R) as (l1 & D1 & R1 & I1 & C1).
+      rewrite D1. cbn [bind].
+      destruct (lc_erase_range s ks 0) as [s1 n]. simpl in *. exists l1.
+      split; [reflexivity|]. split; [exact R1|]. split; [exact I1|exact C1].
+    - destruct (lc_find (polof mru) s k pk) as [s1 r] eqn:E.
+      destruct (ll_find_refines mru t l s k pk s1 r I R E) as (l1 & D1 & R1 & I1 & C1).
+      rewrite D1. cbn [bind]. exists l1. simpl.
+      split; [reflexivity|]. split; [exact R1|]. split; [exact I1|exact C1].
+    - destruct (ll_find_range_refines mru pk ks t l s I R) as (l1 & D1 & R1 & I1 & C1).
+      rewrite D1. cbn [bind].
+      destruct (lc_find_range (polof mru) s ks pk) as [s1 r]. simpl in *. exists l1.
+      split; [reflexivity|]. split; [exact R1|]. split; [exact I1|exact C1].
+    - destruct (ll_find_range_refines mru pk ks t l s I R) as (l1 & D1 & R1 & I1 & C1).
+      rewrite D1. cbn [bind].
+      destruct (lc_find_range (polof mru) s ks pk) as [s1 r]. simpl in *. exists l1.
+      split; [reflexivity|]. split; [exact R1|]. split; [exact I1|exact C1].
+    - exists l. unfold lc_size. rewrite Hsz.
+      split; [reflexivity|]. split; [exact R|]. split; [exact I|reflexivity].
+    - exists l. unfold lc_size. rewrite Hsz.
+      split; [reflexivity|]. split; [exact R|]. split; [exact I|reflexivity].
+    - exists l. rewrite Hcap.
+      split; [reflexivity|]. split; [exact R|]. split; [exact I|reflexivity].
+  Qed.
 
   (* one public call: from related states (the mid-level one satisfying its invariant) the literal
      machine does not hit UB, returns the same result, and the successor states are related *)
@@ -17,7 +1012,11 @@ Section LruLitFacts.
       lc_inv t s -> ll_rep mru l s ->
       exists l', ll_step mru l o now rnd = Ok (l', snd (lc_step pol s o now rnd)) /\
                  ll_rep mru l' (fst (lc_step pol s o now rnd)) /\ lc_inv now (fst (lc_step pol s o now rnd)).
-  Admitted.
+  Proof.
+    intros t l s o now rnd I R.
+    destruct (ll_step_refines_cap t l s o now rnd I R) as (l' & D & R' & I' & _).
+    exists l'. auto.
+  Qed.
 
   Fixpoint ll_run (l : lrul K V) (h : list (ev K V)) : res (lrul K V * list (ret K V)) :=
     match h with
@@ -27,15 +1026,44 @@ Section LruLitFacts.
                 do z <- ll_run l1 r; let '(l2, ys) := z in Ok (l2, y :: ys)
     end.
 
+  Lemma ll_run_refines : forall h t (l : lrul K V) (s : lc K V),
+      lc_inv t s -> ll_rep mru l s ->
+      exists l', ll_run l h = Ok (l', snd (run (lc_step pol) s h)) /\
+                 ll_rep mru l' (fst (run (lc_step pol) s h)) /\
+                 lc_cap (fst (run (lc_step pol) s h)) = lc_cap s.
+  Proof.
+    induction h as [|e r IH]; intros t l s I R; simpl.
+    - exists l. auto.
+    - destruct (ll_step_refines_cap t l s (e_op e) (e_now e) (e_rnd e) I R)
+        as (l1 & D1 & R1 & I1 & C1).
+      rewrite D1. cbn [bind]. unfold step_ev.
+      destruct (lc_step pol s (e_op e) (e_now e) (e_rnd e)) as [s1 y1]. simpl in *.
+      destruct (IH (e_now e) l1 s1 I1 R1) as (l2 & D2 & R2 & C2).
+      rewrite D2. cbn [bind].
+      destruct (run (lc_step pol) s1 r) as [s2 ys]. simpl in *.
+      exists l2. split; [reflexivity|]. split; [exact R2|]. congruence.
+  Qed.
+
   (* whole histories from a fresh cache: never UB, same results as the mid-level model *)
   Theorem ll_no_UB_on_any_history : forall cap h,
       1 <= cap ->
       exists l', ll_run (lrul_init cap) h = Ok (l', snd (run (lc_step pol) (lc_init cap) h)) /\
                  ll_rep mru l' (fst (run (lc_step pol) (lc_init cap) h)).
-  Admitted.
+  Proof.
+    intros cap h Hc.
+    destruct (ll_run_refines h 0%Z (lrul_init cap) (lc_init cap)
+                (lc_inv_init cap 0%Z Hc) (ll_rep_init cap Hc)) as (l' & D & R & _).
+    exists l'. auto.
+  Qed.
 
   (* the number of value cells never changes *)
   Theorem ll_value_cells_constant : forall cap h l' rs,
       1 <= cap -> ll_run (lrul_init cap) h = Ok (l', rs) -> List.length (ll_elems l') = cap.
-  Admitted.
+  Proof.
+    intros cap h l' rs Hc E.
+    destruct (ll_run_refines h 0%Z (lrul_init cap) (lc_init cap)
+                (lc_inv_init cap 0%Z Hc) (ll_rep_init cap Hc)) as (l2 & D & R & C).
+    rewrite D in E. injection E as E1 E2. subst l2.
+    destruct R as (_ & Rle & _). rewrite Rle, C. reflexivity.
+  Qed.
 End LruLitFacts.
